@@ -82,6 +82,15 @@ fn pkg_i() -> Vec<u8> {
 )"#).unwrap()
 }
 
+fn pkg_v(ver: &str) -> Vec<u8> {
+    // one interface name at two versions that are NOT semver-compatible (0.1 vs 0.2): two imports, never mixed up
+    wat::parse_str(&format!(r#"(component
+  (import "v:w/x@{ver}" (instance $i (export "f" (func))))
+  (alias export $i "f" (func $f))
+  (export "g" (func $f))
+)"#)).unwrap()
+}
+
 #[derive(Clone, Debug)]
 enum Origin { Import(String), Alias(u32, String), Instantiate(u32, Vec<(String, K, u32)>), Embedded(usize), Export(K, u32), Def(String), Other }
 
@@ -192,7 +201,7 @@ fn main() {
     let n: usize = std::env::args().nth(1).and_then(|s| s.parse().ok()).unwrap_or(300);
     let seed: u64 = std::env::args().nth(2).and_then(|s| s.parse().ok()).unwrap_or(0);
     let mut r = Rng(seed.wrapping_mul(48271).wrapping_add(11));
-    let pkgs: Vec<(&'static str, Vec<u8>)> = vec![("t:k", pkg_k()), ("t:l", pkg_l()), ("t:p", pkg_p()), ("t:c", pkg_c()), ("t:i", pkg_i())];
+    let pkgs: Vec<(&'static str, Vec<u8>)> = vec![("t:k", pkg_k()), ("t:l", pkg_l()), ("t:p", pkg_p()), ("t:c", pkg_c()), ("t:i", pkg_i()), ("t:v1", pkg_v("0.1.0")), ("t:v2", pkg_v("0.2.0"))];
     let pkg_names: BTreeMap<String, &'static str> = pkgs.iter().map(|(n, _)| (n.to_string(), *n)).collect();
     let (mut comps, mut instantiations, mut nontrivial) = (0u64, 0u64, std::collections::BTreeSet::new());
     let mut wired = 0u64;
@@ -215,7 +224,7 @@ fn main() {
         let mut iface_imports: Vec<NodeId> = vec![];
         let mut own_name_used = false;
         for i in 0..ninst {
-            let k = r.below(5);
+            let k = r.below(7);
             let inst = g.instantiate(pids[k]);
             if r.below(2) == 0 { g.set_node_name(inst, format!("inst{i}")); named += 1; }
             // the consumer's TYPE argument `r`: an alias of the type export `r` of one of the earlier provider instances
@@ -234,7 +243,7 @@ fn main() {
                     iface_imports.push(n); n } };
                 g.set_instantiation_argument(inst, "a:b/c", src).unwrap();
             }
-            let args: &[&str] = match k { 0 => &["a", "b"], _ => &["a"] };
+            let args: &[&str] = match k { 0 => &["a", "b"], 5 | 6 => &[], _ => &["a"] };
             for a in args {
                 match r.below(10) {
                     0 | 1 | 2 => {}
@@ -242,7 +251,7 @@ fn main() {
                     _ if !insts.is_empty() => {
                         // reuse an existing alias (sharing) or make a new one
                         let src = if !aliases.is_empty() && r.below(3) == 0 { aliases[r.below(aliases.len())] } else {
-                            let (j, kj) = insts[r.below(insts.len())]; let names: &[&str] = match kj { 0 => &["f", "g"], 2 => &["f"], 4 => &["g"], _ => &["h"] };
+                            let (j, kj) = insts[r.below(insts.len())]; let names: &[&str] = match kj { 0 => &["f", "g"], 2 => &["f"], 4 | 5 | 6 => &["g"], _ => &["h"] };
                             let al = g.alias_instance_export(j, names[r.below(names.len())]).unwrap(); if r.below(3) == 0 { g.set_node_name(al, format!("alias{}", aliases.len())); named += 1; } aliases.push(al); al };
                         g.set_instantiation_argument(inst, a, src).unwrap();
                     }
@@ -267,7 +276,7 @@ fn main() {
         }
         let mut exported = 0;
         let mut funcs: Vec<NodeId> = imports.clone(); funcs.extend(aliases.iter().cloned());
-        for (j, kj) in insts.clone() { if r.below(2) == 0 { let names: &[&str] = match kj { 0 => &["f", "g"], 2 => &["f"], 4 => &["g"], _ => &["h"] }; funcs.push(g.alias_instance_export(j, names[r.below(names.len())]).unwrap()); } }
+        for (j, kj) in insts.clone() { if r.below(2) == 0 { let names: &[&str] = match kj { 0 => &["f", "g"], 2 => &["f"], 4 | 5 | 6 => &["g"], _ => &["h"] }; funcs.push(g.alias_instance_export(j, names[r.below(names.len())]).unwrap()); } }
         // the designated exports, recorded when the API accepted them (one node may be designated under several names)
         let mut designated: Vec<(String, NodeId)> = vec![];
         for _ in 0..r.below(5) { if !funcs.is_empty() { let f = funcs[r.below(funcs.len())]; let name = format!("out{exported}"); if g.export(f, &name).is_ok() { exported += 1; designated.push((name, f)); } } }
